@@ -27,6 +27,7 @@ COUNTS = {
     "cfg": (3000, 60000),
     "srv": (500, 12000),
     "pair": (800, 40000),
+    "conc": (300, 6000),
 }
 
 def nontrivial_rule(suite):
@@ -38,6 +39,7 @@ def nontrivial_rule(suite):
         "wrecv": "distinct scripts in which the worker performed at least one receive and one send",
         "wrecv-long": "distinct scripts (each > 65 000 blocks)",
         "win": "distinct operation sequences with at least two operations",
+        "conc": "distinct (client set, interleaving) pairs with at least two clients that both start",
         "pair": "distinct (configuration, file, fault schedule) triples with at least one fault",
         "srv": "distinct request histories in which the server sent at least one reply",
         "cfg": "distinct argument-vector families (setting groups x 5 key-order-preserving orders) with at least two groups",
@@ -59,6 +61,8 @@ def is_nontrivial(suite, case, impl):
         return "reply=0" in impl
     if suite == "pair":
         return not case.endswith(" - -")
+    if suite == "conc":
+        return impl.count("=got:") + impl.count("=acked") >= 2
     return True
 
 W_ASSUME = ["virtual clock hook (cfg rs_tftpd_verif) supplies time inside Worker::send_file; receive results are scripted",
@@ -80,6 +84,8 @@ PROPS = {
             "title": "decoder totality"},
     "C11": {"suites": ["codec-enc", "codec-dec"], "monitor": True,
             "title": "codec round trip and wire layout"},
+    "C12": {"suites": ["conc"], "monitor": True, "title": "isolation of concurrent transfers",
+            "assumptions": ["kernel threads, mpsc channels and connected UDP sockets behave as the rules of Model/System.v say (sampled by real schedules, not proved)"]},
     "C13": {"suites": ["wrecv", "srv"], "monitor": True, "title": "cleanup of failed uploads",
             "assumptions": W_ASSUME + ["POSIX unlink/truncate semantics as modelled; write errors (disk full) are modelled, not induced"]},
     "C15": {"suites": ["wsend-long", "wrecv-long"], "monitor": True, "title": "block-number wrap-around", "assumptions": W_ASSUME},
